@@ -1,0 +1,60 @@
+//go:build verif
+
+package index
+
+import (
+	"github.com/lindb/lindb/series/metric"
+	"github.com/lindb/lindb/series/tag"
+)
+
+// This file only exists under the build tag "verif" (external verification harness, property C09).
+// It lets the harness observe the calls a shard's index database makes to the metadata database while it
+// creates a series: Name() (limits lookup inside the create section of the series dictionary, i.e. after
+// the new id was chosen and before the dictionary entry is stored), GenTagKeyID / GenTagValueID (between
+// the postings put and the forward / inverted puts of each tag). Nothing changes while no seam is installed.
+
+// VerifMetaCallSeam is called before (before=true) and after (before=false) such a call;
+// method = "Name" | "GenTagKeyID" | "GenTagValueID".
+type VerifMetaCallSeam func(method string, before bool)
+
+type verifMetaCalls struct {
+	MetricMetaDatabase
+	seam VerifMetaCallSeam
+}
+
+func (m *verifMetaCalls) Name() string {
+	m.seam("Name", true)
+	name := m.MetricMetaDatabase.Name()
+	m.seam("Name", false)
+	return name
+}
+
+func (m *verifMetaCalls) GenTagKeyID(metricID metric.ID, tagKey []byte) (tag.KeyID, error) {
+	m.seam("GenTagKeyID", true)
+	id, err := m.MetricMetaDatabase.GenTagKeyID(metricID, tagKey)
+	m.seam("GenTagKeyID", false)
+	return id, err
+}
+
+func (m *verifMetaCalls) GenTagValueID(tagKeyID tag.KeyID, tagValue []byte) (uint32, error) {
+	m.seam("GenTagValueID", true)
+	id, err := m.MetricMetaDatabase.GenTagValueID(tagKeyID, tagValue)
+	m.seam("GenTagValueID", false)
+	return id, err
+}
+
+// VerifWrapIndexMetaCalls makes the index database report its calls to the metadata database to seam until
+// the returned function is called. Call both only while no operation is running. The metadata database
+// itself (shared with other shards and the metadata worker) is not touched.
+func VerifWrapIndexMetaCalls(db MetricIndexDatabase, seam VerifMetaCallSeam) (restore func()) {
+	idx, ok := db.(*metricIndexDatabase)
+	if !ok {
+		return func() {}
+	}
+	if _, wrapped := idx.metaDB.(*verifMetaCalls); wrapped {
+		return func() {}
+	}
+	old := idx.metaDB
+	idx.metaDB = &verifMetaCalls{MetricMetaDatabase: old, seam: seam}
+	return func() { idx.metaDB = old }
+}
